@@ -168,6 +168,7 @@ class Opts:
         self.p_override = 0.3
         self.p_lookahead = 0.3
         self.p_multibyte = 0.5
+        self.p_frag_dir = 0.3
         self.fancy_layout = False
         for k, v in kw.items():
             setattr(self, k, v)
@@ -378,8 +379,8 @@ class GrammarGen:
                 fs = set()
                 body = self.gen_choice(1, -1, True, fs, solid_first=True)
                 dirs = []
-                if rnd.random() < 0.3:
-                    dirs.append(rnd.choice(["@no_skip_ws", "@memoize", "@position", "@string"]))
+                if rnd.random() < o.p_frag_dir:
+                    dirs.append(rnd.choice(["@no_skip_ws", "@no_skip_ws", "@memoize", "@position", "@string", "@export"]))
                 fr = Rule("F%d" % k, dirs=dirs, body=body)
                 self.rules.append(fr)
                 self.frags.append("F%d" % k)
